@@ -22,6 +22,9 @@ structure SpecSt where
   taints : List String := []
   txids : List Nat := []
   opened : Bool := false
+  /-- committed state before the last Commit / Merge, and the id of that transaction (crash images) -/
+  prev : SpecDB := {}
+  lastTx : Nat := 0
   deriving Inhabited
 
 /-- abstraction of a model state: what the indexes say, structure by structure -/
@@ -82,6 +85,8 @@ structure SpecOut where
   st : SpecSt
   expect : Option Expect
   taint : Option String := none
+  /-- does the signature explain later divergences of the case too (state damage), or this line only? -/
+  sticky : Bool := true
 
 def step (sp : SpecSt) (model : State) (cmd : String) (impl : String) : SpecOut :=
   let f := words cmd
@@ -123,14 +128,32 @@ def step (sp : SpecSt) (model : State) (cmd : String) (impl : String) : SpecOut 
     else
       let installed := sp.txW && cls == "ok"
       -- a failing commit of a write transaction is legitimate (oversized entry); it must change nothing
-      { st := { sp with committed := if installed then sp.work else sp.committed, txClosed := true, writeSet := [] },
+      { st := { sp with committed := if installed then sp.work else sp.committed, txClosed := true, writeSet := [],
+                        prev := sp.committed, lastTx := sp.txids.headD 0 },
         expect := some (ex "ok" (errOk := sp.txW)),
         taint := if sp.txW && cls != "ok" && sp.writeSet.length ≥ 2 then some "D-COMMIT-PARTIAL" else none }
   | "rollback" =>
     if !sp.txOpen || sp.txClosed then { st := sp, expect := some (ex "err") }
     else { st := { sp with txClosed := true, writeSet := [] }, expect := some (ex "ok") }
+  | "capture" => { st := sp, expect := none }
+  | "image" =>
+    -- a crash at any file-mutation point: Open must succeed and show the state before the
+    -- transaction, or — once its last record (the commit marker) is completely written — after it
+    let payload := resPayload impl
+    let field (name : String) : String := match payload.splitOn (name ++ "=") with
+      | _ :: x :: _ => (x.splitOn " ").headD ""
+      | _ => ""
+    let marker := (((field "files").replace ";" ",").splitOn ",").any fun it => (it.splitOn ":").getD 3 "" == "1" && (it.splitOn ":").getD 4 "" == toString sp.lastTx
+    -- after the call has returned (`end`) the transaction must be there, also after a power loss
+    let isEnd := field "event" == "end" || field "event" == "pl-end"
+    let wantSt := if marker || isEnd then sp.committed else sp.prev
+    let head := match payload.splitOn " open=" with | h :: _ => h | [] => ""
+    let want := "ok " ++ head ++ " open=ok obs=" ++ obs wantSt (N 2)
+    let implNorm := "ok " ++ head ++ " open=" ++ field "open" ++ " obs=" ++ (dropEmpties ("ok " ++ (match payload.splitOn " obs=" with | [_, o] => o | _ => ""))).drop 3
+    { st := sp, expect := some (ex want (alts := if implNorm == want then [impl] else [])),
+      taint := if field "event" == "write-torn" then some "D-TORN-CRC" else none, sticky := false }
   | "merge" =>
-    { st := sp, expect := some (ex ("ok" ++ (impl.drop cls.length).toString) (alts := ["err" ++ (impl.drop cls.length).toString])),
+    { st := { sp with prev := sp.committed, lastTx := 0 }, expect := some (ex ("ok" ++ (impl.drop cls.length).toString) (alts := ["err" ++ (impl.drop cls.length).toString])),
       taint := some "D-MERGE" }
   | "obs" =>
     let want := "ok " ++ obs sp.committed (N 1)
